@@ -45,7 +45,7 @@ PROBES = ["enospc_first_write", "enospc_middle_write", "enospc_last_write", "sho
           "subdirectory", "strided_input", "int_input", "float32_input", "scale_factor", "one_element_array",
           "zero_d_array", "table_vector", "table_matrix", "csv_separator", "custom_separator", "python_int_value",
           "fault_in_first_call_of_writer", "call_after_failed_call_succeeds", "header_column_count_differs_from_rows",
-          "stale_log_file_present", "columns_not_in_logical_order"]
+          "stale_log_file_present", "columns_not_in_logical_order", "vti_extension_appended"]
 # observation-only counters that are reported when non-zero but are not workload targets: fault_call_returned_normally
 # (an injected error was swallowed -- zero on a correct tree), header_is_raw_length / header_is_encoded_length
 FAULT_KINDS = ["enospc", "short_write", "eio_open"]
@@ -153,7 +153,8 @@ def gen(rng, idx, tier):
             ninp = int(rng.integers(1, 5))
             case["writers"].append(dict(kind="vti", name=f"w{w}", dir=sub, overwrite=bool(rng.random() < 0.4),
                                         scale=float(rng.choice([1.0, 1.0, 2.0, 0.5, 1e-3, 3.0])),
-                                        inputs=[_vti_input(rng, d, tags[i]) for i in range(ninp)]))
+                                        inputs=[_vti_input(rng, d, tags[i]) for i in range(ninp)],
+                                        vext=str(rng.choice([".vti", ".vti", ".vti", ".VTI", "", ".out", ".r1.vti"]))))
         else:
             ninp = int(rng.integers(1, 5))
             inputs = []
@@ -590,7 +591,7 @@ def execute(case, res, fault=None, sigcache=None):
                     writers.append(None)
                     continue
                 sigs = [signal(wi, inp["tag"]) for inp in inputs]
-                saveto = os.path.join(base, w["name"] + ".vti")
+                saveto = os.path.join(base, w["name"] + w.get("vext", ".vti"))
                 mod = pym.WriteToVTI(sigs, domain=dom, saveto=saveto, overwrite=bool(w["overwrite"]), scale=float(w["scale"]))
                 writers.append(dict(spec=w, kind="vti", mod=mod, sigs=sigs, inputs=inputs, saveto=saveto, its={0}, files={},
                                     excluded=set(), calls=0, ok_calls=0, failed_before=False))
@@ -626,10 +627,17 @@ def execute(case, res, fault=None, sigcache=None):
         probe("several_writers_one_dir")
 
     def vti_path(w, it):
+        # one file per iteration: <stem>.<NNNN><ext>; a name that does not end in .vti (any case) gets '.vti' appended (documented by
+        # DomainDefinition.write_to_vti: "filename: the file location", extension added when missing)
         if w["spec"]["overwrite"]:
-            return w["saveto"]
-        stem, ext = os.path.splitext(w["saveto"])
-        return stem + ".%04d" % it + ext
+            nm = w["saveto"]
+        else:
+            stem, ext = os.path.splitext(w["saveto"])
+            nm = stem + ".%04d" % it + ext
+        if ".vti" not in os.path.splitext(nm)[-1].lower():
+            nm += ".vti"
+            probe("vti_extension_appended")
+        return nm
 
     # ---- the history
     for at, op in enumerate(case["ops"]):
